@@ -557,10 +557,12 @@ impl Locale {
         warnings: &Warnings,
     ) -> Result<()> {
         let keys = std::mem::take(&mut self.keys);
+        // the candidate forms of a base key are kept in a Vec and not in a map keyed by the form:
+        // `x_one` and `x_ordinal_one` have the same form, one must not silently replace the other.
         #[allow(clippy::type_complexity)]
         let mut possible_plurals: BTreeMap<
             String,
-            BTreeMap<PluralForm, (Key, PluralRuleType, ParsedValue)>,
+            Vec<(PluralForm, Key, PluralRuleType, ParsedValue)>,
         > = BTreeMap::new();
         for (key, mut value) in keys {
             if let ParsedValue::Subkeys(Some(subkeys)) = &mut value {
@@ -570,25 +572,23 @@ impl Locale {
             }
             if let Some((base_key, rule_type, plural_form)) = Self::is_possible_plural(&key, &value)
             {
-                let map = possible_plurals.entry(base_key.to_owned()).or_default();
-                map.insert(plural_form, (key, rule_type, value));
+                let plurals = possible_plurals.entry(base_key.to_owned()).or_default();
+                plurals.push((plural_form, key, rule_type, value));
             } else {
                 self.keys.insert(key, value);
             }
         }
         for (base_key, mut plurals) in possible_plurals {
-            if plurals.len() == 1 {
-                for (_, (key, _, value)) in plurals {
-                    self.keys.insert(key, value);
-                }
-                continue;
-            }
-            let Some((_, rule_type, other)) = plurals.remove(&PluralForm::Other) else {
-                for (_, (key, _, value)) in plurals {
+            let other_pos = plurals
+                .iter()
+                .position(|(form, ..)| *form == PluralForm::Other);
+            let Some(other_pos) = other_pos.filter(|_| plurals.len() > 1) else {
+                for (_, key, _, value) in plurals {
                     self.keys.insert(key, value);
                 }
                 continue;
             };
+            let (_, _, rule_type, other) = plurals.remove(other_pos);
             let key = Key::new(&base_key).unwrap_at("merge_plurals_1");
             key_path.push_key(key);
             if !cfg!(feature = "plurals") && !SKIP_ICU_CFG.get() {
@@ -601,7 +601,7 @@ impl Locale {
 
             let forms = plurals
                 .into_iter()
-                .map(|(form, (_, rule, value))| {
+                .map(|(form, _, rule, value)| {
                     if rule == rule_type {
                         Ok((form, value))
                     } else {
